@@ -130,8 +130,8 @@ fn check_pattern(t: &mut Tally, pat: &str, names: &[String]) {
 }
 
 const BASES: [&str; 8] = ["", "p", "pk", "p-q", "p-q-r", "é", "e\u{301}", "p*"];
-const BOUNDS: [&str; 8] = ["", "1", "2", "1.5", "2nb1", "1.0", "2alpha", "0"];
-const VERSIONS: [&str; 12] = ["", "0", "1", "1.5", "2", "2nb1", "3", "1.0.0", "2beta", "alpha", "0rc1", "0.0beta2"];
+const BOUNDS: [&str; 9] = ["", "1", "2", "1.5", "2nb1", "1.0", "2alpha", "0", "1\u{663}"];
+const VERSIONS: [&str; 14] = ["", "0", "1", "1.5", "2", "2nb1", "3", "1.0.0", "2beta", "alpha", "0rc1", "0.0beta2", "1\u{663}", "1.0nb1\u{ff11}"];
 
 fn structured_names() -> Vec<String> {
     let mut bases: BTreeSet<String> = BTreeSet::new();
@@ -256,5 +256,31 @@ fn main() {
         t.transitions += cnames.len() as u64;
         check_pattern(t, &p, &cnames);
     });
+    // scale: long bases, bounds with many components, names with many '-'
+    {
+        let mut t = Tally::new();
+        let mut pats: Vec<String> = vec![];
+        let mut names: Vec<String> = vec![];
+        for n in [8usize, 16, 17, 64, 300] {
+            let base = format!("{}x", "lib-".repeat(n));
+            for (lo, hi) in [("1", "2"), ("1.0", "1.1"), ("1.0.0.0.0.0.0.0.0.1", "1.0.0.0.0.0.0.0.0.2"), ("0", "")] {
+                pats.push(format!("{}>={}", base, lo));
+                pats.push(format!("{}>={}<{}", base, lo, hi));
+                pats.push(format!("{}<{}>{}", base, lo, hi));
+            }
+            for v in ["1", "1.0", "1.5", "1.0.0.0.0.0.0.0.0.1", "1.0.0.0.0.0.0.0.0.1.5", "2", "0", ""] {
+                names.push(format!("{}-{}", base, v));
+                names.push(format!("{}-{}", &base[1..], v));
+                names.push(format!("{}y-{}", base, v));
+            }
+        }
+        run.bound(format!("scale: {} patterns with bases of 8..300 '-' parts and bounds of up to 10 components x {} names", pats.len(), names.len()));
+        for p in &pats {
+            t.states += 1;
+            t.transitions += names.len() as u64;
+            check_pattern(&mut t, p, &names);
+        }
+        run.merge(t);
+    }
     run.finish();
 }
